@@ -92,7 +92,8 @@ RULE = (
     "schedule with <= 2 (quick) / 3 (thorough) preemptions (capped) + PCT/random walks + the 'stall' family (one thread eager, then "
     "starved, enumerated over thread and switch point); launcher: 2-4 launcher threads over 1-2 "
     "command hashes (cold start, reuse, worker idle-exit racing a launch, scripted spawn failure, zero lock timeout, explicit "
-    "socket path), same exploration. A case is one (config, schedule); non-trivial when a connection was accepted by the loop "
+    "socket path — also ONE socket launched concurrently under several spellings: symlinked directory, `..` segments, relative "
+    "to the cwd, resolved by the in-memory file system only), same exploration. A case is one (config, schedule); non-trivial when a connection was accepted by the loop "
     "resp. two launcher threads ran a launch"
 )
 MANIFEST = {
@@ -197,8 +198,8 @@ def _delay(cfg: dict[str, Any], kind: str, ident: int) -> int:
     """Scripted descheduling (quanta) of one thread at one point: cfg["delays"][kind] = [[id, quanta], …].  Logical time only
     passes while every thread is blocked, so "thread X has not yet run while time passes" has to be a blocked state: the
     thread sleeps on the logical clock at the point in question (accept loop right after accept() returned; a connection's
-    thread before its first statement; a handler between the end of the service and its final section; a timer callback
-    between firing and taking the lock)."""
+    thread before its first statement; a handler between the end of the service and its final section; a timer thread
+    between the end of its wait and calling the callback — `callback` — and between that call and taking the lock — `cblock`)."""
     for i, d in cfg.get("delays", {}).get(kind, []):
         if i == ident:
             return int(d)
@@ -322,7 +323,7 @@ def _loop_threading(ds: DetSched, obs_ref: list[_Obs], cfg: dict[str, Any] | Non
                 tt = getattr(t, "_t", None)
                 if tt is not None and tt.tid == me and k not in obs_ref[0].delayed:
                     obs_ref[0].delayed.add(k)
-                    d = _delay(cfg, "callback", k)
+                    d = _delay(cfg, "cblock", k)
                     if d:
                         ds.time.sleep(d * Q)
             return super().acquire(blocking, timeout)
@@ -355,7 +356,21 @@ def _loop_threading(ds: DetSched, obs_ref: list[_Obs], cfg: dict[str, Any] | Non
 
         def Timer(self, interval: float, function: Any, *a: Any, **k: Any) -> Any:  # noqa: N802
             obs_ref[0].learn(function)
-            t = base.Timer(interval, function, *a, **k)
+            idx = len(obs_ref[0].timers)
+
+            def called(*aa: Any, **kk: Any) -> Any:
+                # threading.Timer.run: the wait is over, the timer was not cancelled — the thread is about to CALL its function.
+                # It may be descheduled right here, before the callable evaluates anything (a late-bound closure argument is
+                # read only now): a scheduling point, and optionally a scripted delay while time passes.
+                d = _delay(cfg, "callback", idx)
+                if d:
+                    ds.time.sleep(d * Q)
+                else:
+                    ds.point(what=f"call callback {idx}")
+                ds.emit("cb-call", idx)
+                return function(*aa, **kk)
+
+            t = base.Timer(interval, called, *a, **k)
             obs_ref[0].timers.append(t)
             return t
 
@@ -534,6 +549,8 @@ def loop_analyse(cfg: dict[str, Any], run: Any) -> dict[str, Any]:
         elif k == "serve-end":
             labels.append(["serveEnd", ev[2]])
             events.append(["fin", ev[2], now])
+        elif k == "cb-call":
+            labels.append(["cbRead", ev[2]])
         elif k == "timer-fire":
             if tid in timers:
                 labels.append(["fire", timers[tid]])
@@ -729,8 +746,13 @@ LOOP_CORPUS += [
     {"idle": 6, "delays": {"start": [[1, 5]]}, "clients": [[["connect"], ["close"]], [["sleep", 6], ["connect"], ["close"]]]},
     # the accept loop itself is descheduled right after accept() returned (the uncounted connection sits in the loop thread)
     {"idle": 3, "delays": {"accept": [[1, 5]]}, "clients": [[["connect"], ["close"]], [["sleep", 3], ["connect"], ["sleep", 8], ["close"]]]},
+    # "timer fired but its callback not yet called / not yet under the lock; a connection accepted and finished meanwhile": the
+    # callback of timer 1 is due when connection 1 arrives, and the timer thread is descheduled for one quantum — before it calls
+    # the callback (what a late-bound argument would read has changed by then) resp. between the call and the lock
+    {"idle": 6, "delays": {"callback": [[1, 1]]}, "clients": [[["connect"], ["close"]], [["sleep", 6], ["connect"], ["close"]]]},
+    {"idle": 6, "delays": {"cblock": [[1, 1]]}, "clients": [[["connect"], ["close"]], [["sleep", 6], ["connect"], ["close"]]]},
     # a fired callback that reaches the lock late, and a handler that reaches its final section late
-    {"idle": 3, "delays": {"callback": [[1, 2]], "end": [[0, 2]]}, "clients": [[["connect"], ["close"]], [["sleep", 4], ["connect"], ["sleep", 6], ["close"]]]},
+    {"idle": 3, "delays": {"cblock": [[1, 2]], "end": [[0, 2]]}, "clients": [[["connect"], ["close"]], [["sleep", 4], ["connect"], ["sleep", 6], ["close"]]]},
     # the very first connection arrives when the start-up grace timer is due and its thread is late
     {"idle": 4, "delays": {"start": [[0, 5]]}, "clients": [[["sleep", 480], ["connect"], ["sleep", 9], ["close"]]]},
 ]
@@ -762,8 +784,8 @@ def gen_loop(rng: Any) -> dict[str, Any]:
     if rng.random() < 0.6:  # descheduled threads: one or two delay points, lengths around the accept timeout (4) and idle
         delays: dict[str, list[list[int]]] = {}
         for _ in range(rng.choice([1, 1, 2])):
-            kind = rng.choice(["start", "start", "accept", "end", "callback"])
-            ident = rng.randrange(n) if kind != "callback" else rng.choice([0, 1, 1, 2])
+            kind = rng.choice(["start", "start", "accept", "end", "callback", "callback", "cblock"])
+            ident = rng.randrange(n) if kind not in ("callback", "cblock") else rng.choice([0, 1, 1, 2])
             delays.setdefault(kind, []).append([ident, rng.choice([1, 3, 4, 5, 5, idle, idle + 1, 9])])
         cfg["delays"] = delays
     return cfg
@@ -796,8 +818,33 @@ class _World:
         self.next_ino += 1
         return self.next_ino
 
+    def canon(self, path: Any) -> str:
+        """Path resolution of the in-memory file system (what the kernel does with a path; `Path.absolute()` does none of it):
+        relative paths start at the cwd, `.` / `..` are walked, symlinked directories (`cfg["links"]`) are followed.  Every
+        operation on the world goes through it, so two spellings of one file reach one inode."""
+        p = str(path)
+        if not p.startswith("/"):
+            p = "/cwd/" + p
+        links = self.cfg.get("links", {"/run/link": "/run/s", "/cwd": "/run/wd"})
+        out: list[str] = []
+        todo = [x for x in p.split("/") if x and x != "."]
+        hops = 0
+        while todo:
+            x = todo.pop(0)
+            if x == "..":
+                if out:
+                    out.pop()
+                continue
+            out.append(x)
+            tgt = links.get("/" + "/".join(out))
+            if tgt is not None and hops < 16:
+                hops += 1
+                out = []
+                todo = [y for y in tgt.split("/") if y and y != "."] + todo
+        return "/" + "/".join(out)
+
     def sock_worker(self, path: str) -> dict[str, Any] | None:
-        e = self.fs.get(path)
+        e = self.fs.get(self.canon(path))
         if e is None or e["kind"] != "sock":
             return None
         return e["worker"]
@@ -848,7 +895,7 @@ class _FakeOs:
 
     def lstat(self, path: Any) -> _FakeStat:
         w = self._w()
-        p = str(path)
+        p = w.canon(path)
         w.ds.point(what=f"lstat {p}")
         e = w.fs.get(p)
         w.ds.emit("fs-lstat", p, None if e is None else e["ino"])
@@ -858,7 +905,7 @@ class _FakeOs:
 
     def unlink(self, path: Any) -> None:
         w = self._w()
-        p = str(path)
+        p = w.canon(path)
         w.ds.point(what=f"unlink {p}")
         e = w.fs.pop(p, None)
         if e is not None and p.endswith(".lock"):
@@ -900,13 +947,15 @@ class _FakePath(PurePosixPath):
 
     def exists(self) -> bool:
         w = _World.current
-        return w is not None and str(self) in w.fs
+        return w is not None and w.canon(self) in w.fs
 
     def glob(self, pattern: str) -> list["_FakePath"]:
         w = _World.current
         assert w is not None
         w.ds.point(what=f"glob {pattern}")
-        out = [_FakePath(p) for p in w.fs if PurePosixPath(p).parent == self and fnmatch.fnmatch(PurePosixPath(p).name, pattern)]
+        here = PurePosixPath(w.canon(self))
+        out = [_FakePath(self / PurePosixPath(p).name) for p in w.fs
+               if PurePosixPath(p).parent == here and fnmatch.fnmatch(PurePosixPath(p).name, pattern)]
         w.ds.emit("fs-glob", str(self), len(out))
         return out
 
@@ -914,7 +963,7 @@ class _FakePath(PurePosixPath):
         w = _World.current
         assert w is not None
         w.ds.point(what=f"write {self}")
-        p = str(self)
+        p = w.canon(self)
         if p not in w.fs:
             w.fs[p] = {"kind": "file", "ino": w.ino()}
         w.ds.emit("fs-write", p)
@@ -940,7 +989,7 @@ class _FakeFileLock:
         w = _World.current
         assert w is not None
         ds = w.ds
-        p = self.lock_file
+        p = w.canon(self.lock_file)
         start = ds.now()
         while True:
             ds.point(what=f"lock-open {p}")
@@ -977,14 +1026,14 @@ class _FakeFileLock:
             return
         w.ds.point(what=f"lock-release {self.lock_file}")
         w.flocks.pop(self.ino, None)
-        w.ds.emit("lock-release", self.lock_file, self.ino)
+        w.ds.emit("lock-release", w.canon(self.lock_file), self.ino)
         self.ino = None
 
 
 def _fake_probe(path: Any) -> bool:
     w = _World.current
     assert w is not None
-    p = str(path)
+    p = w.canon(path)
     w.ds.point(what=f"probe {p}")
     wk = w.sock_worker(p)
     ok = wk is not None and wk["accepting"]
@@ -1046,7 +1095,7 @@ class _FakeSock:
 
     def connect(self, path: Any) -> None:
         w, me = self._me()
-        p = str(path)
+        p = w.canon(path)
         w.ds.point(what=f"connect {p}")
         e = w.fs.get(p)
         tgt = None if e is None or e["kind"] != "sock" else e["worker"]
@@ -1059,7 +1108,7 @@ class _FakeSock:
 
     def bind(self, path: Any) -> None:
         w, me = self._me()
-        p = str(path)
+        p = w.canon(path)
         w.ds.point(what=f"bind {p}")
         if p in w.fs:
             w.ds.emit("w-bind-failed", me["ep"], me["wid"])
@@ -1143,7 +1192,9 @@ def _launcher(ds: DetSched, L: Any, w: _World, prog: list[list[Any]]) -> None:
             kw: dict[str, Any] = {"worker_argv": (f"worker-{o['cmd']}",), "state_dir": "/state", "idle_timeout": w.idle,
                                   "connect_timeout": o.get("ct", 30) * Q if "ct" in o else 30.0}
             if o.get("explicit"):
-                kw["socket_path"] = f"/run/{o['cmd']}.sock"
+                # one socket, several spellings: plain, through a symlinked directory, with `..` segments, relative to the cwd
+                kw["socket_path"] = {"plain": "/run/s/{c}.sock", "link": "/run/link/{c}.sock", "dotdot": "/run/s/../s/{c}.sock",
+                                     "rel": "../s/{c}.sock"}[o.get("spell", "plain")].format(c=o["cmd"])
             conf = L.LaunchConfig(**kw)
             epname = o["cmd"] if o.get("explicit") else L.compute_hash(conf.worker_argv)
             ds.emit("launch-begin", o["cmd"], epname)
@@ -1232,6 +1283,9 @@ def launch_analyse(cfg: dict[str, Any], run: Any) -> dict[str, Any]:
     cur_ep: dict[int, str | None] = {}  # launcher thread -> endpoint it is launching (None while outside launch())
     episode: dict[tuple[int, str], dict[str, Any]] = {}  # (thread, endpoint) -> current episode
     worker_tid: dict[int, tuple[str, int]] = {}
+    own_lock: dict[int, str] = {}      # launcher thread -> name of the lock file it took first in the current launch
+    lock_alias: dict[str, str] = {}    # lock-file name -> endpoint it guards (when the file is not named after the endpoint)
+    lock_names: dict[str, set[str]] = {}  # endpoint -> the lock files launches of it were seen to use
     wphase: dict[int, str] = {}  # worker thread -> where it is in serve_unix (check, clear, bind, bound, run, exit, exit-stat, gone, dead)
     launches = 0
     launch_threads: set[int] = set()
@@ -1266,6 +1320,7 @@ def launch_analyse(cfg: dict[str, Any], run: Any) -> dict[str, Any]:
             continue
         if k == "launch-begin":
             cur_ep[tid] = ev[3]
+            own_lock.pop(tid, None)
             launches += 1
             launch_threads.add(tid)
             continue
@@ -1274,6 +1329,14 @@ def launch_analyse(cfg: dict[str, Any], run: Any) -> dict[str, Any]:
             continue
         if k in ("lock-open", "lock-flock", "lock-verify", "lock-timeout", "lock-release"):
             name = _endpoint(ev[2])
+            # the first lock a launch takes is the one guarding its own endpoint, whatever that lock file is called
+            if k == "lock-open" and cur_ep.get(tid) is not None and tid not in own_lock:
+                own_lock[tid] = name
+                if name != cur_ep[tid]:
+                    lock_alias[name] = cur_ep[tid]
+                    lock_names.setdefault(cur_ep[tid], set()).add(name)
+            name = lock_alias.get(name, name)
+            lock_names.setdefault(name, set()).add(_endpoint(ev[2]))
             ep = ep_of(name)
             e = epi(tid, name)
             mt = e["mt"]
@@ -1516,6 +1579,9 @@ def launch_analyse(cfg: dict[str, Any], run: Any) -> dict[str, Any]:
     truth = launch_truth(cfg, run)
     truth["dead_inode"] = any(ev[0] == "lock-verify" and not ev[4] for ev in tr)
     truth["lock_contended"] = any(ev[0] == "lock-flock" and not ev[4] for ev in tr)
+    split_locks = sorted(n for n, names in lock_names.items() if len(names) > 1)
+    if split_locks:
+        anomalies.append(f"launches of endpoint(s) {split_locks} locked on different lock files: {sorted(lock_names[split_locks[0]])}")
     return {"eps": eps, "anomalies": anomalies, "launches": launches, "threads": len(launch_threads),
             "violations": truth["violations"], "clobbered": truth["clobbered"], "raised": truth["raised"],
             "dead_inode": truth["dead_inode"], "lock_contended": truth["lock_contended"]}
@@ -1688,6 +1754,13 @@ LAUNCH_CORPUS: list[dict[str, Any]] = [
     {"idle": 8, "launchers": [[_l("a")], [_l("a", ct=0)]]},
     # explicit socket path: sibling lock file, no meta, no GC
     {"idle": 8, "launchers": [[_l("x", explicit=True)], [_l("x", explicit=True)]]},
+    # path aliasing: ONE socket launched concurrently under several spellings — through a symlinked directory, with `..`
+    # segments, relative to the cwd (`Path.absolute()` resolves none of these; the file system does)
+    {"idle": 8, "launchers": [[_l("x", explicit=True, spell="plain")], [_l("x", explicit=True, spell="link")]]},
+    {"idle": 8, "launchers": [[_l("x", explicit=True, spell="dotdot")], [_l("x", explicit=True, spell="rel")],
+                              [_l("x", explicit=True, spell="link")]]},
+    {"idle": 4, "launchers": [[_l("x", explicit=True, spell="link"), ["sleep", 4], _l("x", explicit=True, spell="plain")],
+                              [["sleep", 4], _l("x", explicit=True, spell="rel")]]},
 ]
 
 
@@ -1703,6 +1776,11 @@ def gen_launch(rng: Any) -> dict[str, Any]:
                 prog.append(["sleep", rng.choice([1, idle - 1, idle, idle, idle + 1, 2 * idle])])
             prog.append(_l(rng.choice(cmds)))
         launchers.append(prog)
+    if rng.random() < 0.3:  # the same programme on ONE explicit socket, every launch under a random spelling of its path
+        for prog in launchers:
+            for op in prog:
+                if op[0] == "launch":
+                    op[1] = dict(cmd="x", explicit=True, spell=rng.choice(["plain", "link", "dotdot", "rel"]))
     cfg: dict[str, Any] = {"idle": idle, "launchers": launchers, "src": "gen"}
     if rng.random() < 0.15:
         cfg["spawn_fail"] = [rng.choice([1, 2])]
@@ -1733,7 +1811,7 @@ def check_meta(ctx: Any, T: Any, L: Any) -> None:
     shapes = {k: g[k] for k in ("sharedUnderLock", "loopShape", "handlerShape", "timerShape", "launchShape", "gcShape", "workerExitShape")}
     ctx.note("shape_facts", shapes)
     ctx.note("repair_shapes", {"clearsFlagOnAccept": g["clearsFlagOnAccept"], "callbackChecksCurrent": g["callbackChecksCurrent"],
-                               "registersInHandler": g["registersInHandler"], "filelockChecksNlink": g["filelockChecksNlink"]})
+                               "registersInHandler": g["registersInHandler"], "callbackCheck": g["callbackCheck"], "filelockChecksNlink": g["filelockChecksNlink"]})
     # serve_unix / serve_tcp refuse idle_timeout without threaded=True (the idle logic lives in the threaded loop only)
     for fn, args in ((T.serve_unix, ("/nonexistent/x.sock",)), (T.serve_tcp, ())):
         c = {"meta": f"{fn.__name__}(idle_timeout=1, threaded=False)"}
